@@ -19,6 +19,9 @@ def scratch(prefix):
     return tempfile.mkdtemp(prefix=prefix, dir=base)
 
 
+_MADE = 0      # enforcers constructed so far in this run (deterministic: every suite run starts from 0)
+
+
 class World:
     def __init__(self, dirs=DIRS, enforce_new_defaults=True, regs=(), policy_file=None, make_dirs=True):
         self.tmp = scratch('opverif-fs-')
@@ -122,7 +125,16 @@ class World:
         return out
 
     def new_enforcer(self, defaults=None, **kw):
+        # every other enforcer is constructed before the deployment's enforce_new_defaults value is in place (a service may
+        # build its enforcer before it has parsed its configuration): only the value at load time counts
+        global _MADE
+        _MADE += 1
+        late = _MADE % 2 == 0
+        if late:
+            self.conf.set_override('enforce_new_defaults', not self.enforce_new_defaults, group='oslo_policy')
         e = policy.Enforcer(self.conf, **kw)
+        if late:
+            self.conf.set_override('enforce_new_defaults', self.enforce_new_defaults, group='oslo_policy')
         e.suppress_deprecation_warnings = True
         e.register_defaults(defaults if defaults is not None else self.rule_defaults())
         return e
@@ -136,11 +148,21 @@ class World:
             return 'raise:' + type(ex).__name__
         return None
 
-    def model_request(self):
+    @staticmethod
+    def reg_json(r):
+        return {'name': r['name'], 'check_str': driver.enc(r['check_str']),
+                'deprecated': [r['deprecated'][0], driver.enc(r['deprecated'][1])] if r.get('deprecated') else None}
+
+    def register(self, enforcer, specs):
+        """register_default on the long-lived enforcer between loads; recorded for the model."""
+        by_name = {d.name: d for d in self.rule_defaults()}
+        for r in specs:
+            self.steps.append({'op': 'register', 'reg': self.reg_json(r)})
+            enforcer.register_default(by_name[r['name']])
+
+    def model_request(self, initial_regs=None):
         return {'op': 'loader', 'enforce_new_defaults': self.enforce_new_defaults,
-                'regs': [{'name': r['name'], 'check_str': driver.enc(r['check_str']),
-                          'deprecated': [r['deprecated'][0], driver.enc(r['deprecated'][1])] if r.get('deprecated') else None}
-                         for r in self.regs],
+                'regs': [self.reg_json(r) for r in (self.regs if initial_regs is None else initial_regs)],
                 'fs': self.fs0, 'steps': self.steps}
 
 
